@@ -5,6 +5,7 @@ package pod_grouper
 
 import (
 	"context"
+	"sort"
 	"strconv"
 	"strings"
 
@@ -103,5 +104,8 @@ func formatLabelSelector(selector map[string]string) string {
 	for key, value := range selector {
 		pairs = append(pairs, key+"="+value)
 	}
+	// map iteration order is random: without a fixed order the argument, and with it the deployment, would
+	// change between reconciles of the same configuration
+	sort.Strings(pairs)
 	return strings.Join(pairs, ",")
 }
